@@ -47,7 +47,21 @@ impl PhysLayer {
         }
     }
 
+    #[cfg(all(feature = "serial", feature = "verif-hooks"))]
+    pub(crate) fn new_serial(stream: crate::verif::MaybeSerial) -> Self {
+        match stream {
+            crate::verif::MaybeSerial::Real(stream) => {
+                let calculate_inter_character_delay = calculate_inter_character_delay(&stream);
+                Self {
+                    layer: PhysLayerImpl::Serial(stream, calculate_inter_character_delay, None),
+                }
+            }
+            crate::verif::MaybeSerial::Verif(io) => Self::new_verif(io),
+        }
+    }
+
     #[cfg(feature = "serial")]
+    #[cfg(not(feature = "verif-hooks"))]
     pub(crate) fn new_serial(stream: tokio_serial::SerialStream) -> Self {
         let calculate_inter_character_delay = calculate_inter_character_delay(&stream);
         Self {
